@@ -13,7 +13,7 @@ REPLAYS = os.path.join(VERIF, "replays")
 
 # property -> units that own obligations for it (DESIGN.md section 5)
 PROPERTY_UNITS = {
-    "C06": ["V1_runtime", "V2_basic", "V3_simple"],
+    "C06": ["V1_runtime", "V2_basic", "V3_simple", "R_refuter"],
     "C07": ["V1_runtime", "K1_numbers", "V2_basic", "V3_simple"],
     "C08": ["V1_runtime", "V3_simple", "R_refuter"],
     "C09": ["K1_numbers", "V1_runtime"],
@@ -346,7 +346,7 @@ ASSUMPTIONS_COMMON = [
     "Verus 0.2026.09.13 / Z3, rustc 1.98.1, Kani 0.68 / CBMC 6.11, the extractor and this driver are trusted",
     "A-TRAIT: the GarnishData trait contract of units/V1_runtime/preamble.rs holds for the data implementation in use (checked only where units V2 (Basic) and V3 (Simple) say so, clause by clause, by reading the same statement in both files)",
     "A-HOST: host callbacks (resolve/apply/defer_op) obey the documented protocol: accepted => exactly one valid result on the operand stack, declined => operand stack untouched",
-    "A-AXIOMS: Size behaves as nat, Clone is identity, comparison operators implement the spec functions; iterators yield their remaining items in order (next_law); Extents(zero, max_value) selects a whole sequence; equality of Size/Symbol/Char/Byte is structural, of Number numeric; counting up from zero stays a list position and the sum of two list positions is one (is_idx); push_register leaves the value table untouched (proof fn axioms() / trait clauses)",
+    "A-AXIOMS: Size behaves as nat, Clone is identity, comparison operators implement the spec functions; iterators yield their remaining items in order (next_law); Extents(zero, max_value) selects a whole sequence; equality of Size/Symbol/Char/Byte is structural, of Number numeric; counting up from zero stays a list position and the sum of two list positions is one (is_idx); push_register leaves the value table untouched; the data object's notion of a concatenation's flat item sequence (`concat_flat`) is the one the walker visits (`walk`; proved for SimpleGarnishData in unit V3) (proof fn axioms() / trait clauses)",
     "A-64BIT (unit V3): usize is 64 bits wide (`global size_of usize == 8`), as on the shipped targets",
     "A-MEM (unit V2): push_ok_n - the appends a method performs fit the machine (memory is not exhausted within the call)",
     "A-FROM: `?` converting Data::Error into RuntimeError yields err_from(e) with code Unknown (vstd leaves spec_from uninterpreted)",
